@@ -7,8 +7,24 @@ result, engine-call trace and object-graph snapshot after EVERY op) and all
 oracles live in harness/vnetcase.py.  This check owns the oracle
 "ops through handles that left their node change nothing and return None; unheld handles are inactive";
 failures of the other L2 oracles (owned by C01/C02/C05/C06/C07) are listed as
-notes in the evidence."""
+notes in the evidence.
+
+Stage "operations pipelined behind a departure" (harness/vnet_pipeline.py):
+for every departure (destructive measure, send) x placement (local / remote /
+third node) x register layout (departing qubit first / middle / last of 2-3,
+asymmetric product and entangled states) 1-2 further operations are written
+through the SAME handle to the same connection immediately behind the
+departing operation (nobody waits for its reply), under FIFO, random, PCT and
+delay-injection schedules; results, final joint state, positions and existence
+of all qubits must equal a serial outcome "ran before the departure" / "was
+inert" (ideal-register reference), then every op kind through the old handle
+must be inert.  The combinations that are open same-handle findings of C03 /
+C04 on the unchanged tree (pipelined send / destructive measure / two-qubit
+gate with a mate, see the module docstring of vnet_pipeline for the exact
+list) are left out."""
+from .. import core
 from .. import vnetcase
+from .. import vnet_pipeline
 
 LEAN_TARGETS = ["SqVerif.Props.C06"]
 PROPS_FILE = "SqVerif/Props/C06.lean"
@@ -23,14 +39,22 @@ TRUSTED = [
     "K = [[1,-i],[i,-1]]/sqrt2 (validated against the stabilizer code by C13/C14)",
 ]
 ASSUMPTIONS = [
-    "operations are issued one after the other, each to completion (interleavings are C03/C04)",
+    "operations are issued one after the other, each to completion (interleavings are C03/C04); pipeline stage: one client "
+    "pipelines calls through ONE handle on one connection; a pipelined op that is itself a departure or a two-qubit gate "
+    "with a second qubit is left out (open same-handle findings of C03/C04)",
     "stabilizer backend, noise off; two-qubit gates only between handles held by the same node (the API cannot express more)",
     "no send addressed to the issuing node (deadlocks: known finding under C04)",
 ]
 
 
 def run(ctx):
-    return vnetcase.run_check(ctx, "C06")
+    rp = getattr(ctx, "replay", None)
+    if rp and vnet_pipeline.is_pipe(rp):
+        return vnet_pipeline.stage(ctx, core.Result())
+    res = vnetcase.run_check(ctx, "C06")
+    if not rp:
+        vnet_pipeline.stage(ctx, res)
+    return res
 
 
 def search(ctx, res, broken):
